@@ -269,7 +269,7 @@ Section HARO.
           | None, Some n => hadd_inner (write_full h5 on n, t) pfx on n
           | Some c, Some n =>
             let h6 := write_full (write_full h5 oc c) on n in
-            if path_equal c n then (h6, t) else hadd_inner (hremove_exported (h6, t) pfx c) pfx on n
+            if path_compare c n then (h6, t) else hadd_inner (hremove_exported (h6, t) pfx c) pfx on n
           end
         end
       else (h2, t)
